@@ -547,6 +547,9 @@ def check_spec(res: Result, spec, seed: int, extra_p=()) -> None:
     opts = [k for k, _ in spec["params"] if k in ("transformation", "lower_bound", "upper_bound")]
     if opts:
         res.count("A:option=" + "+".join(opts))
+        zero = [k for k, v in spec["params"] if k in ("lower_bound", "upper_bound") and S.pval(v) == 0]
+        if zero:
+            res.count("A:truncation-bound-equal-to-0:" + "+".join(zero) + ("(one-sided)" if len([o for o in opts if o != "transformation"]) == 1 else ""))
     bad, obs = D.check_distribution(spec, seed, list(extra_p))
     if obs.get("thirdparty_nonfinite"):
         res.count("A:thirdparty-nonfinite(scipy itself)")
